@@ -92,6 +92,23 @@ func (d *Decoder) pop() starlark.Value {
 	return v
 }
 
+// maxKeySize bounds the number of tuple elements, counted along every path, in one dict key or set
+// element. Hashing a key visits its elements path by path, and a pickle can share one tuple between
+// many parents through the memo: n levels of (t, t) are n small tuples but 2^n steps to hash.
+const maxKeySize = 1 << 24
+
+// checkKey fails if hashing x would take more than the remaining budget of steps.
+func checkKey(x starlark.Value, budget *int) {
+	if *budget--; *budget < 0 {
+		panic(failure(errors.New("dict key or set element too large")))
+	}
+	if t, ok := x.(starlark.Tuple); ok {
+		for _, e := range t {
+			checkKey(e, budget)
+		}
+	}
+}
+
 func (d *Decoder) memoize(x starlark.Value) {
 	d.memo = append(d.memo, x)
 }
@@ -251,6 +268,8 @@ func (d *Decoder) decode() starlark.Value {
 			}
 			for j := i + 1; j < len(d.stack); j += 2 {
 				key, value := d.stack[j], d.stack[j+1]
+				budget := maxKeySize
+				checkKey(key, &budget)
 				dict.SetKey(key, value)
 			}
 			d.stack = d.stack[:i]
@@ -271,6 +290,8 @@ func (d *Decoder) decode() starlark.Value {
 				panic(failure(fmt.Errorf("ADDITEMS expects a set, not a %s", d.stack[i-1].Type())))
 			}
 			for _, v := range d.stack[i+1:] {
+				budget := maxKeySize
+				checkKey(v, &budget)
 				set.Insert(v)
 			}
 			d.stack = d.stack[:i]
